@@ -3187,6 +3187,10 @@ class Mailbox:
         - `name`: The name of the mailbox to delete
         - `server`: The user server object
         """
+        # Like `get_mailbox()`: the hierarchy separator at the front of a name
+        # is not part of the name we use internally (`/INBOX` is the inbox.)
+        #
+        name = name[1:] if name and name[0] == "/" else name
         if name.lower() == "inbox":
             raise InvalidMailbox("You are not allowed to delete the inbox")
 
